@@ -2,47 +2,67 @@
 #![allow(dead_code, unused_results, clippy::all)]
 use super::*;
 
-// @harness id=bnd_error_code_filter props=C16,C04 kind=bnd tier=thorough bound=code<=3digits,filter<=3digits fns=match_error_code,ErrPrinter::filter_error_msgs,ErrPrinter::new
-// A message "0:[E<code>]" is shown under the filter exactly when <code> equals the listed code
-// (not when one is a prefix of the other). Codes and filter codes of 1..=4 digits.
-#[kani::proof]
-#[kani::unwind(12)]
-fn bnd_error_code_filter() {
-    let cd: [u8; 3] = kani::any();
-    let fd: [u8; 3] = kani::any();
-    let (cn, fnn): (usize, usize) = (kani::any(), kani::any());
-    kani::assume(cn >= 1 && cn <= 3 && fnn >= 1 && fnn <= 3);
+/// message "[E<code>]" with CN code digits against a filter code of FN digits (digits symbolic)
+fn filter_case<const CN: usize, const FN: usize>() {
+    let cd: [u8; CN] = kani::any();
+    let fd: [u8; FN] = kani::any();
     let mut i = 0;
-    while i < 3 {
-        kani::assume(cd[i] >= b'0' && cd[i] <= b'9' && fd[i] >= b'0' && fd[i] <= b'9');
+    while i < CN {
+        kani::assume(cd[i] >= b'0' && cd[i] <= b'9');
         i += 1;
     }
-    // message: "0:[E" + code + "]"
-    let mut m = [0u8; 8];
-    m[0] = b'0';
-    m[1] = b':';
-    m[2] = b'[';
-    m[3] = b'E';
-    let mut k = 0;
-    while k < cn {
-        m[4 + k] = cd[k];
-        k += 1;
+    i = 0;
+    while i < FN {
+        kani::assume(fd[i] >= b'0' && fd[i] <= b'9');
+        i += 1;
     }
-    m[4 + cn] = b']';
-    let msg: Box<str> = unsafe { core::str::from_utf8_unchecked(&m[..5 + cn]) }.into();
-    let filter = vec![String::from(unsafe { core::str::from_utf8_unchecked(&fd[..fnn]) })];
-    let msgs = [msg];
-    let p = ErrPrinter::new(None, None);
-    let shown = p.filter_error_msgs(None, &filter[..], msgs.iter()).count();
-    let mut same = cn == fnn;
-    let mut j = 0;
-    while j < 3 {
-        if j < cn && j < fnn && cd[j] != fd[j] {
+    let mut m = [0u8; 8];
+    m[0] = b'[';
+    m[1] = b'E';
+    i = 0;
+    while i < CN {
+        m[2 + i] = cd[i];
+        i += 1;
+    }
+    m[2 + CN] = b']';
+    let msg: &str = unsafe { core::str::from_utf8_unchecked(&m[..3 + CN]) };
+    let filt: &str = unsafe { core::str::from_utf8_unchecked(&fd[..]) };
+    // as the caller does: advance the message iterator just past '['
+    let mut msg_chars = msg.chars();
+    let pos = msg_chars.position(|c| c == '[').unwrap();
+    let r = match_error_code(msg, filt.chars(), msg_chars, pos);
+    let mut same = CN == FN;
+    i = 0;
+    while i < CN && i < FN {
+        if cd[i] != fd[i] {
             same = false;
         }
-        j += 1;
+        i += 1;
     }
-    assert!((shown == 1) == same, "[C16] with an error-code filter exactly the messages carrying a listed code are shown (prefixes do not match)");
-    kani::cover!(shown == 1);
-    kani::cover!(shown == 0 && cn != fnn);
+    assert!(r == same, "[C16] with an error-code filter exactly the messages carrying a listed code are shown (a prefix in either direction does not match)");
+}
+
+// @harness id=bnd_error_code_filter_1_2 props=C16,C04 kind=bnd tier=quick bound=code=1digit,filter=2digits fns=match_error_code
+#[kani::proof]
+#[kani::unwind(10)]
+fn bnd_error_code_filter_1_2() {
+    filter_case::<1, 2>();
+}
+// @harness id=bnd_error_code_filter_2_1 props=C16,C04 kind=bnd tier=quick bound=code=2digits,filter=1digit fns=match_error_code
+#[kani::proof]
+#[kani::unwind(10)]
+fn bnd_error_code_filter_2_1() {
+    filter_case::<2, 1>();
+}
+// @harness id=bnd_error_code_filter_2_2 props=C16,C04 kind=bnd tier=quick bound=code=2digits,filter=2digits fns=match_error_code
+#[kani::proof]
+#[kani::unwind(10)]
+fn bnd_error_code_filter_2_2() {
+    filter_case::<2, 2>();
+}
+// @harness id=bnd_error_code_filter_2_3 props=C16,C04 kind=bnd tier=quick bound=code=2digits,filter=3digits fns=match_error_code
+#[kani::proof]
+#[kani::unwind(10)]
+fn bnd_error_code_filter_2_3() {
+    filter_case::<2, 3>();
 }
